@@ -10,6 +10,7 @@ CONSTANTS
   ResetChoices <- RepairedOnly
   TamperTags <- AllTags
   CacheChoices = {"none"}
+  AckCodeChoices <- CodeAcks
   Concurrent = FALSE
   RecordHist = TRUE
 INVARIANT Emit
